@@ -12,7 +12,11 @@ array formulas entered over target ranges.  The member-cell model
 eval_func / INDEX / _evaluate) is tied to ExcelCompiler on the same workbooks:
 the formula's result array and the target shape -> the value of EVERY cell of the
 target (stream e2e:cells), and the numbers and range written into every member
-cell (stream e2e:sheet)."""
+cell (stream e2e:sheet).  Lifted functions: the catalogue of what the library lifts
+(excel_helper(cse_params=…) functions and the ones that wrap themselves inside an
+array-formula context: IFERROR, IFNA, IFS) is read from the loaded modules; streams
+lifted:* (library level, arrays at every subset of the lifted positions) and
+e2e-lifted:* (real CSE formulas, range and member cells) carry the pointwise oracle."""
 import itertools
 
 from harness.common import (canon, dec_res, enc_val, ensure_impl_on_path, known_predicate,
@@ -185,6 +189,17 @@ def _empty_marker_text(case):
     return case.get('call') == 'array-formula' and 'member' in case and case.get('element') == '#EMPTY!'
 
 
+@known_predicate('C13-single-cell-array-formula-no-context')
+def _single_cell_no_context(case):
+    """One cause: an array formula entered into ONE cell (reference A15:A15) is loaded as an ordinary formula
+    (excelwrapper.load_array_formulas: AddressRange of a single cell is an AddressCell), so it is evaluated
+    outside an array-formula context and the functions that lift themselves only inside one (IFERROR, IFNA,
+    IFS: `if in_array_formula_context and …`) take an array argument for a scalar.  The functions lifted by
+    the decorator are not affected (the cell shows the top-left element of their array)."""
+    return (case.get('call') == 'array-formula' and case.get('lifted') == 'context'
+            and case.get('target_shape') == [1, 1] and bool(case.get('arrays')))
+
+
 def run(ctx):
     ensure_impl_on_path()
     import logging
@@ -203,7 +218,11 @@ def run(ctx):
         "operators, every result shape x every target shape h x w <= 4x4 for fit_to_range, every compatible "
         "operand pair x every target end to end in a workbook; element values sampled by the PRNG from "
         "numbers (ints, dyadic floats), text, logicals, blank and the error codes; lifted functions MOD, "
-        "ROUND, LEFT, IF and a probe function through apply_meta with array/scalar argument mixes; every cell "
+        "ROUND, LEFT, IF and a probe function through apply_meta with array/scalar argument mixes; every function "
+        "the library lifts (catalogue by introspection, incl. IFERROR/IFNA/IFS inside an array-formula context) "
+        "with equally shaped arrays at every subset of its lifted argument positions, differing elements and "
+        "errors away from the top left, at library level and as real CSE formulas over the arguments' shape, "
+        "two other targets and one cell; every cell "
         "of every end-to-end target against the member-cell model; ranges around two adjacent array formulas "
         "(same text, extended text, other text; horizontal or vertical; reference sizes up to 3x3); "
         "distinct = distinct (call, shapes, values)")
@@ -397,14 +416,316 @@ def run(ctx):
                         ctx.violation(case, "lifted function is not the scalar function at every position",
                                       impl=im, expected=want)
 
+    # ================================================= 3b. every function the library lifts, every argument mix
+    lifted_all(ctx)
+
     # ================================================= 4. end to end: array formulas in a workbook
     end_to_end(ctx, fixup, FUNCS)
+
+    # ================================================= 4b. … with every lifted function, arrays in every position
+    lifted_e2e(ctx, fixup)
 
     # ================================================= 5. which range is an array formula's range
     range_formulas(ctx, fixup)
 
     # ================================================= 6. the text "#EMPTY!" as an element
     empty_marker(ctx)
+
+
+# ------------------------------------------------- every function the library lifts over arrays
+TABLE = ((1, 'a', 10), (2, 'b', 20), (3, 'c', 30))
+LIFT_NUMS = [0, 1, 2, 3, -1, -2, 0.5, 1.5, 2.5, 7, 10, 12, 100, -5]
+LIFT_TEXTS = ['abc', 'hello', 'a', 'b', 'x y', 'ABC', 'l', 12, 1.5, True]
+# values that make a call of the named function non-trivial at one argument position (drawn 4 times of 5;
+# otherwise any element): tables for the positions that take a table, small indices, formats, dates
+LIFT_HINTS = {
+    ('hlookup', 1): [TABLE], ('vlookup', 1): [TABLE], ('lookup', 1): [((1, 2, 3),), ((1,), (2,), (3,))],
+    ('match', 1): [((1, 2, 3),), (('a',), ('b',), ('c',))],
+    ('hlookup', 0): [1, 2, 3, 'a', 'b', 0, 4], ('vlookup', 0): [1, 2, 3, 0, 4, 2.5], ('lookup', 0): [1, 2, 3, 0, 2.5, 4],
+    ('match', 0): [1, 2, 3, 'a', 'b', 'c', 0, 4],
+    ('hlookup', 2): [1, 2, 3, 4], ('vlookup', 2): [1, 2, 3, 4], ('match', 2): [0, 1, -1],
+    ('hlookup', 3): [True, False], ('vlookup', 3): [True, False],
+    ('choose', 0): [1, 2, 3, 0, 1.5, '2', True],
+    ('text', 1): ['0', '0.00', '#,##0', '@', '0%'],
+    ('substitute', 3): [1, 2],
+    ('yearfrac', 0): [40000, 40179, 41000, 42500.5], ('yearfrac', 1): [40100, 40544, 41366, 43000],
+    ('yearfrac', 2): [0, 1, 2, 3, 4],
+    ('fact', 0): [0, 1, 2, 5, 10, -1, 3.5], ('factdouble', 0): [0, 1, 2, 5, 10, -1],
+    ('log', 1): [2, 10, 0.5, 4], ('ln', 0): [1, 2, 0.5, 0, -1, 1024],
+    ('pv', 0): [0, 0.5, 0.25], ('pv', 1): [1, 2, 4],
+    ('round_', 1): [0, 1, 2, -1, -2], ('roundup', 1): [0, 1, 2, -1, -2], ('rounddown', 1): [0, 1, 2, -1, -2],
+    ('trunc', 1): [0, 1, 2, -1, -2],
+    ('if_', 0): [True, False, 0, 1, 2, 'true', 'FALSE', None],
+    ('iferror', 0): ERRORS + ['#N/A', 1, 2.5, 'a', None], ('ifna', 0): ['#N/A', '#N/A', '#DIV/0!', 1, 'a', None],
+}
+LIFT_TABLE_POSITIONS = {('hlookup', 1), ('vlookup', 1), ('lookup', 1), ('match', 1)}
+
+
+def lifted_catalog():
+    """Every function of pycel.excellib / pycel.lib.* that the library lifts over array arguments, found by
+    introspection: the ones decorated with excel_helper(cse_params=…) ('decorated': cse_array_wrapper is put
+    around them by apply_meta) and the ones that call cse_array_wrapper themselves when they are evaluated
+    inside an array formula ('context': IFERROR, IFNA, IFS).  [(python name, function, meta or None, how)],
+    aliases (x_abs = abs_) once."""
+    import importlib
+    import inspect
+    import pkgutil
+    import pycel.lib
+    from pycel.lib.function_helpers import FUNC_META
+    mods = ['pycel.excellib'] + ['pycel.lib.' + m.name for m in pkgutil.iter_modules(pycel.lib.__path__)]
+    seen, out = set(), []
+    for mn in mods:
+        m = importlib.import_module(mn)
+        for n, f in sorted(vars(m).items()):
+            if not inspect.isfunction(f) or f.__module__ != mn or id(f) in seen:
+                continue
+            meta = getattr(f, FUNC_META, None)
+            if meta and meta.get('cse_params') is not None:
+                seen.add(id(f))
+                out.append((n, f, dict(meta), 'decorated'))
+            elif mn != 'pycel.lib.function_helpers' and 'cse_array_wrapper' in f.__code__.co_names:
+                seen.add(id(f))
+                out.append((n, f, None, 'context'))
+    return out
+
+
+def idx_set(spec, n):
+    if spec is None:
+        return set()
+    if spec == -1:
+        return set(range(n))
+    if isinstance(spec, int):
+        return {spec}
+    return set(spec)
+
+
+def lift_arities(f):
+    """argument counts to call f with: required .. all positional parameters; a few for *args"""
+    import inspect
+    ps = list(inspect.signature(f).parameters.values())
+    if any(p.kind == p.VAR_POSITIONAL for p in ps):
+        if f.__name__ == 'ifs':
+            return [2, 4, 6]
+        fixed = len([p for p in ps if p.kind != p.VAR_POSITIONAL])
+        return [fixed + 2, fixed + 3, fixed + 4]
+    req = len([p for p in ps if p.default is p.empty])
+    return list(range(max(req, 1), len(ps) + 1))
+
+
+def lift_positions(ctx, name, f, meta, n):
+    """the argument positions the library lifts in a call with n arguments, and the sets of them that get an
+    array: every non-empty subset (up to 3 positions), else every single position, all of them and 4 sampled"""
+    cse = sorted(idx_set(meta['cse_params'], n) & set(range(n))) if meta else list(range(n))
+    subsets = [s for k in range(1, len(cse) + 1) for s in itertools.combinations(cse, k)]
+    if len(subsets) > 7:
+        mid = [s for s in subsets if 1 < len(s) < len(cse)]
+        subsets = [s for s in subsets if len(s) in (1, len(cse))] + ctx.rng.sample(mid, min(4, len(mid)))
+    return subsets
+
+
+def lift_value(ctx, name, meta, pos, n, in_cell=False):
+    """one scalar for argument `pos` of a call of `name` with n arguments"""
+    r = ctx.rng.random()
+    h = LIFT_HINTS.get((name, pos))
+    if name == 'ifs' and pos % 2 == 0:
+        h = LIFT_HINTS[('if_', 0)]
+    if h is not None and r < 0.8:
+        v = ctx.rng.choice(h)
+    elif name.startswith('bit') and r < 0.8:
+        v = ctx.rng.choice([0, 1, 2, 3, 5, 12, 255, 1024])
+    elif meta and pos in idx_set(meta.get('number_params'), n) and r < 0.8:
+        v = ctx.rng.choice(LIFT_NUMS)
+    elif meta and pos in idx_set(meta.get('str_params'), n) and r < 0.8:
+        v = ctx.rng.choice(LIFT_TEXTS)
+    else:
+        v = cell_value(ctx) if in_cell else elem(ctx)
+    if in_cell and isinstance(v, str) and (v == '' or v.strip() != v):
+        v = 'abc'           # a worksheet cell does not hold the empty text
+    return v
+
+
+def lift_array(ctx, name, meta, pos, n, shape, in_cell=False):
+    """an array for argument `pos`: elements drawn one by one (not all alike), and — every second time — an
+    error code somewhere else than at the top left"""
+    R, C = shape
+    for _ in range(8):
+        a = [[lift_value(ctx, name, meta, pos, n, in_cell) for _ in range(C)] for _ in range(R)]
+        if R * C == 1 or len({repr(x) for row in a for x in row}) > 1:
+            break
+    if R * C > 1 and ctx.rng.random() < 0.5:
+        k = ctx.rng.randrange(1, R * C)
+        a[k // C][k % C] = ctx.rng.choice(ERRORS)
+    return tuple(tuple(row) for row in a)
+
+
+def lifted_all(ctx):
+    """Library level: every lifted function (lifted_catalog), every argument count, arrays of one shape at
+    every subset of the lifted positions and scalars elsewhere, called as a formula's compiled code calls it
+    (through apply_meta) inside an array-formula context.  Oracle: the same function on the elements at each
+    position."""
+    from pycel.excelutil import AddressRange, in_array_formula_context
+    from pycel.lib.function_helpers import apply_meta
+    target = AddressRange('A1:D4')
+    seen_kinds = set()
+    for name, f0, meta, how in lifted_catalog():
+        if meta and meta.get('ref_params') is not None:
+            continue            # CELL, OFFSET: a reference argument needs a workbook
+        g = apply_meta(f0, name_space={})[0]
+
+        def call(*a, g=g):
+            with in_array_formula_context(target):
+                return g(*a)
+        for n in lift_arities(f0):
+            for sub in lift_positions(ctx, name, f0, meta, n):
+                for _ in range(ctx.n(6, 30)):
+                    sh = ctx.rng.choice(SHAPES)
+                    args = tuple(lift_array(ctx, name, meta, p, n, sh) if p in sub else
+                                 lift_value(ctx, name, meta, p, n) for p in range(n))
+                    case = dict(call='lifted:' + name, args=list(args), arrays=list(sub))
+                    im = run_impl(call, *args)
+                    ctx.count(('lifted', name, repr(args)), kind=f'lifted:{how}', sample=dict(case, impl=im))
+                    seen_kinds.add(how)
+                    want = tuple(tuple(run_impl(call, *(a[r][c] if p in sub else a for p, a in enumerate(args)))
+                                       for c in range(sh[1])) for r in range(sh[0]))
+                    if any(x[0] != 'ok' for row in want for x in row):
+                        continue        # the scalar function raises on this element: not C13's subject
+                    want = ('ok', tuple(tuple(x[1] for x in row) for row in want))
+                    if im != want:
+                        ctx.violation(case, "lifted function is not the scalar function at every position "
+                                            "(arrays at argument positions %s)" % (list(sub),),
+                                      impl=im, expected=want)
+    if seen_kinds != {'decorated', 'context'}:
+        ctx.broke("tie: the catalogue of lifted functions has no %s function any more" %
+                  sorted({'decorated', 'context'} - seen_kinds))
+
+
+def excel_name(pyname):
+    """the worksheet spelling of a library function (FunctionNode.emit read backwards)"""
+    from pycel.excelformula import FunctionNode
+    back = {v: k for k, v in FunctionNode.func_map.items()}
+    return back.get(pyname, pyname).replace('_', '.').upper()
+
+
+def lifted_e2e(ctx, fixup):
+    """Real CSE formulas: =FUNC(arg, …) entered over target ranges, for every lifted function of the
+    catalogue; each argument at a lifted position is a range of one shape (cells holding numbers, text,
+    logicals, blanks, error values; elements differ; errors away from the top left) or a scalar literal, the
+    first argument every fourth time a quotient of two such ranges (errors computed inside the formula); the
+    other positions hold scalars (tables where the function wants one).  Every argument mix for the
+    context-sensitive functions and IF, sampled mixes for the rest.  Oracle: the function on the elements at
+    each position, fitted to the target; the range and every member cell."""
+    from openpyxl import Workbook
+    from openpyxl.worksheet.formula import ArrayFormula
+    from pycel import ExcelCompiler
+    from pycel.excelutil import AddressRange, in_array_formula_context
+    from pycel.lib.function_helpers import apply_meta
+
+    def literal(v):
+        if isinstance(v, bool):
+            return 'TRUE' if v else 'FALSE'
+        if isinstance(v, str):
+            return v if v in ERRORS else '"' + v + '"'
+        return repr(v)
+    ctx_target = AddressRange('A1:D4')
+    shapes = [s for s in SHAPES if s != (1, 1)]
+    for name, f0, meta, how in lifted_catalog():
+        if (meta and meta.get('ref_params') is not None) or name == 'indirect':
+            continue            # reference arguments / results: C16's subject
+        g = apply_meta(f0, name_space={})[0]
+
+        def call(*a, g=g):
+            with in_array_formula_context(ctx_target):
+                return g(*a)
+        xl = excel_name(name)
+        every = how == 'context' or name == 'if_'
+        plans = []
+        for n in lift_arities(f0):
+            if n > 6:
+                continue
+            subsets = lift_positions(ctx, name, f0, meta, n)
+            if every:
+                plans += [(n, sub) for sub in subsets for _ in range(ctx.n(3, 10))]
+            else:
+                plans += [(n, ctx.rng.choice(subsets)) for _ in range(ctx.n(2, 8))]
+        for n, sub in plans:
+            sh = ctx.rng.choice(shapes)
+            wb = Workbook()
+            ws = wb.active
+
+            def put(vals, c0):
+                for i, row in enumerate(vals):
+                    for j, v in enumerate(row):
+                        if v is not None:
+                            ws.cell(row=1 + i, column=c0 + j, value=v)
+                return f'{col(c0)}1:{col(c0 + len(vals[0]) - 1)}{len(vals)}'
+            args, texts = [], []
+            for p in range(n):
+                c0 = 1 + 5 * p
+                if p in sub:
+                    a = lift_array(ctx, name, meta, p, n, sh, in_cell=True)
+                    t = put(a, c0)
+                    if p == 0 and ctx.rng.random() < 0.25:
+                        d = tuple(tuple(ctx.rng.choice([1, 2, 0, 4, 0.5, None, 'a']) for _ in range(sh[1]))
+                                  for _ in range(sh[0]))
+                        t = f'{t}/{put(d, 41)}'
+                        q = run_impl(fixup, a, 'Div', d)
+                        if q[0] != 'ok' or not isinstance(q[1], tuple):
+                            break
+                        a = fixup(a, 'Div', d)
+                elif (name, p) in LIFT_TABLE_POSITIONS:
+                    a = ctx.rng.choice(LIFT_HINTS[(name, p)])
+                    t = put(a, c0)
+                else:
+                    a = lift_value(ctx, name, meta, p, n, in_cell=True)
+                    while a is None:
+                        a = lift_value(ctx, name, meta, p, n, in_cell=True)
+                    t = literal(a)
+                args.append(a)
+                texts.append(t)
+            else:
+                formula = f'={xl}({",".join(texts)})'
+                point = [[run_impl(call, *(a[r][c] if p in sub else a for p, a in enumerate(args)))
+                          for c in range(sh[1])] for r in range(sh[0])]
+                if any(x[0] != 'ok' or isinstance(x[1], (tuple, list)) and x[1][:1] != ('float',)
+                       for row in point for x in row):
+                    continue            # the scalar call raises or gives an array: not C13's subject
+                point = tuple(tuple(call(*(a[r][c] if p in sub else a for p, a in enumerate(args)))
+                                    for c in range(sh[1])) for r in range(sh[0]))
+                # the arguments' own shape, two others; one cell as well for the functions whose lifting depends
+                # on the array-formula context
+                tshapes = [sh] + ([(1, 1)] if how == 'context' else []) + ctx.rng.sample(SHAPES, 2)
+                targets = []
+                for k, (h, w) in enumerate(tshapes):
+                    r0, c0 = 10 + 5 * k, 1
+                    ref = f'{col(c0)}{r0}:{col(c0 + w - 1)}{r0 + h - 1}'
+                    ws.cell(row=r0, column=c0, value=ArrayFormula(ref, formula))
+                    targets.append((h, w, r0, c0, ref))
+                cargs = [xl, list(args)]
+                try:
+                    comp = ExcelCompiler(excel=wb)
+                except Exception as exc:      # noqa: BLE001
+                    ctx.violation(dict(call='array-formula', args=cargs, formula=formula),
+                                  f"workbook with array formulas does not compile: {type(exc).__name__}")
+                    continue
+                for h, w, r0, c0, ref in targets:
+                    case = dict(call='array-formula', args=cargs, arrays=list(sub), lifted=how, formula=formula,
+                                target=ref, target_shape=[h, w])
+                    want = fit_statement(point, h, w)
+                    got = run_impl(comp.evaluate, f'Sheet!{ref}')
+                    ctx.count(('e2e-lifted', formula, repr(args), ref), kind=f'e2e-lifted:{how}',
+                              sample=dict(case, impl=got))
+                    if got != ('ok', canon(squeeze(want))):
+                        ctx.violation(case, "array formula over the target range is not the fitted pointwise result",
+                                      impl=got, expected=squeeze(want))
+                        continue
+                    for i, j in itertools.product(range(h), range(w)):
+                        member = f'Sheet!{col(c0 + j)}{r0 + i}'
+                        gm = run_impl(comp.evaluate, member)
+                        ctx.count(('e2e-lifted-member', formula, repr(args), ref, i, j), kind='e2e-lifted:member')
+                        wm = canon(want[i][j])
+                        if gm != ('ok', wm) and not (wm is None and gm == ('ok', 0)):
+                            ctx.violation(dict(case, member=member, element=wm),
+                                          "member cell does not show its own element", impl=gm, expected=wm)
 
 
 def cell_value(ctx):
